@@ -748,6 +748,16 @@ func main() {
 			}
 		}
 	}
+	// negative limits: nothing may be received
+	for _, full := range []bool{false} {
+		for _, limit := range []int{-1, -2, math.MinInt} {
+			for capN := 0; capN <= 2; capN++ {
+				scs = append(scs, queuedScenario(qconf{full: full, capN: capN, fill: capN, limit: limit}))
+				scs = append(scs, queuedScenario(qconf{full: full, capN: capN, fill: capN, closed: true, limit: limit}))
+			}
+			scs = append(scs, queuedScenario(qconf{full: full, capN: 0, fill: 0, limit: limit, blockedPeers: 1}))
+		}
+	}
 	// large queues (a batch path behind a fill-level threshold) alone and with a rival receiver
 	for _, full := range []bool{false, true} {
 		for _, capN := range []int{15, 16, 17, 33, 64} {
